@@ -8,7 +8,8 @@ from vf.core import Part, Violation, call
 from vf.props import common
 
 PROPERTY = "C02"
-RULE = ("Hypothesis generates validated model DAG specs (no pre-fixed nodes). Direction => (all models): every enumerated/"
+RULE = ("Parts 'shapes*': EXHAUSTIVE enumeration of every single threshold node (all values/signs) alone and inside every "
+        "connective. Other parts: Hypothesis generates validated model DAG specs (no pre-fixed nodes). Direction => (all models): every enumerated/"
         "sampled satisfying leaf assignment, completed with the reference truth value of every sub-proposition, must be an "
         "in-bounds point of the asserted polyhedron. Direction <= (solver-safe models only): ALL in-bounds integer points of "
         "the asserted polyhedron with auxiliary columns free are enumerated when the column box has <= guard points "
@@ -172,8 +173,13 @@ def _with_tier(strategy, tier):
     return strategy.map(lambda c: dict(c, tier=tier))
 
 
+def shapes(slice_i, n):
+    for spec in S.small_shapes(slice_i, n):
+        yield {"model": spec, "points": None, "obj": [], "tier": "quick"}
+
+
 def parts(tier):
-    return [
+    return [Part("shapes%d" % i, enumerate_cases=(lambda t, i=i: shapes(i, 4)), check=check, time_quick=120.0) for i in range(4)] + [
         Part("small", strategy=lambda t: _with_tier(case_strategy(t, "small"), t), check=check, quick=(6, 200), thorough=(12, 1500)),
         Part("large", strategy=lambda t: _with_tier(case_strategy(t, "large"), t), check=check, quick=(2, 80), thorough=(4, 500)),
         Part("negated_thresholds", strategy=lambda t: _with_tier(negation_case(t), t), check=check, quick=(2, 300), thorough=(4, 2500)),
